@@ -20,20 +20,24 @@ def run(prop, tier):
                   workers=8, timeout=3600, coverage=True)
     if not res.ok:
         raise Machinery("MC_Prob invariants fail:\n" + res.tail[-3000:])
-    tlc.require_actions(res, ["SetBackend", "CallValue", "CallRelation"])
+    tlc.require_actions(res, ["SetBackend", "SwitchPrecision", "CallValue", "CallRelation"])
     groups = {}
     for ln in open(res.cases_path):
         d = json.loads(ln)
-        groups.setdefault((d["backend"], d["prec"]), []).append(ln)
-    if len(groups) != len(BACKENDS) * len(PRECS):
+        groups.setdefault((d["backend"], d["prec"], d["first"]["backend"], d["first"]["prec"]), []).append(ln)
+    if len(groups) != 2 * len(BACKENDS) * len(PRECS):
         raise Machinery(f"MC_Prob: obligations for {sorted(groups)} only")
     total = calls = 0
     per, cases, kinds = {}, {}, {}
-    for (be, prec), lines in sorted(groups.items()):
-        nproc = 4
+    switched = 0
+    for (be, prec, fb, fp), lines in sorted(groups.items()):
+        nproc = 4 if fb == "none" else 2
         chunks = [lines[i::nproc] for i in range(nproc)]
         nb = 0
-        for out in run_chunks("prob_replay", "replay", chunks, backend=be, precision=prec, procs=nproc):
+        # a switched session starts its worker processes on the FIRST segment's backend/precision
+        kw = dict(backend=be, precision=prec) if fb == "none" else dict(backend=fb, precision=fp, kwargs={"switch_to": (be, prec)})
+        switched += len(lines) if fb != "none" else 0
+        for out in run_chunks("prob_replay", "replay", chunks, procs=nproc, **kw):
             if "machinery" in out:
                 raise Machinery(out["machinery"])
             nb += out["n"]; calls += out["calls"]
@@ -43,16 +47,16 @@ def run(prop, tier):
                 kinds[k] = kinds.get(k, 0) + c
             for (key, detail, tags) in out["findings"]:
                 v.violation(f"[{be}/{prec}] {key}", detail, tags)
-        per[f"{be}/{prec}"] = nb
+        per[f"{be}/{prec}" + ("" if fb == "none" else f" after {fb}/{fp}")] = nb
         total += nb
     missing = [c for c in NEEDED_CASES if not cases.get(c)] + [k for k in NEEDED_KINDS if not kinds.get(k)]
     if missing:
         raise Machinery(f"C04: vacuous run, never exercised: {missing}")
     v.sample(json.loads(next(iter(groups.values()))[0]))
     v.coverage.update(states=res.distinct, transitions=res.generated, depth=res.depth, tlc_cached=res.cached, tlc_wall_s=round(res.wall, 1),
-                      traces_validated_against_impl=total, obligations_per_backend_precision=per, primitive_calls=calls,
+                      traces_validated_against_impl=total, obligations_per_backend_precision=per, primitive_calls=calls, obligations_after_a_precision_switch=switched,
                       cases_exercised=cases, obligation_kinds=kinds, evaluations=total, distinct_nontrivial=sum(c for k, c in cases.items() if "regular" in k or "located" in k),
-                      rule=("MC_Prob is the call-session machine SetBackend -> Call over the decimal argument lattice of each precision (counts 0..1e8 integer "
+                      rule=("MC_Prob is the call-session machine SetBackend [-> SwitchPrecision: same process, every primitive family used at the other precision first] -> Call over the decimal argument lattice of each precision (counts 0..1e8 integer "
                             "and real, rates 0, smallest denormal .. 1e8, sigma over 20 orders of magnitude, cdf arguments -38..38); TLC checks the case "
                             "split (limits exactly at rate 0), that every argument is inside the selected format, the ordered/symmetric cdf chain and the "
                             "exact representability of the equivariance triples, and prints every Call state as an obligation.  The harness discharges each "
